@@ -1,7 +1,7 @@
 #!/bin/sh
 # usage: tools/try_seed.sh Cxx [srcdir]  — confirm a seeded change and run the property's check against it
 # (scratch worktree + WEBOB_REPO; the final confirmation pass applies the patch to /repo itself, see DESIGN.md)
-P="$1"; SRC="${2:-/tmp/seed-$P}"; D=/verif/seeded/$P; W=/tmp/chk-$P
+P="$1"; SRC="${2:-/tmp/seed-$P}"; TAG="${3:-}"; D=/verif/seeded/$P$TAG; W=/tmp/chk-$P$TAG
 mkdir -p $D
 [ -f $SRC/patch.diff ] && cp $SRC/patch.diff $D/patch.diff
 for f in $SRC/demo_*.py; do [ -f "$f" ] && cp $f $D/; done
@@ -16,25 +16,26 @@ echo "== changed: $(git diff --stat | tail -1)"
 T=$(PYTHONPATH=$W/src /venv/bin/python -m pytest -q -p no:cacheprovider --timeout=900 -o addopts="" tests 2>&1 | grep -E "passed|failed" | tail -1)
 echo "== test-suite with change: $T"
 DEMO=$(ls $D/demo_*.py | head -1)
-PYTHONPATH=$W/src /venv/bin/python $DEMO >/tmp/demo_$P.out 2>&1; R1=$?
-PYTHONPATH=/repo/src /venv/bin/python $DEMO >/tmp/demo0_$P.out 2>&1; R0=$?
-echo "== demo exit with change: $R1 (want 1), on /repo: $R0 (want 0): $(head -c 300 /tmp/demo_$P.out | tr '\n' ' ')"
+PYTHONPATH=$W/src /venv/bin/python $DEMO >/tmp/demo_$P$TAG.out 2>&1; R1=$?
+PYTHONPATH=/repo/src /venv/bin/python $DEMO >/tmp/demo0_$P$TAG.out 2>&1; R0=$?
+echo "== demo exit with change: $R1 (want 1), on /repo: $R0 (want 0): $(head -c 300 /tmp/demo_$P$TAG.out | tr '\n' ' ')"
 cd /verif
-WEBOB_REPO=$W ./check $P > /tmp/chk_$P.out 2>&1; RC=$?
+WEBOB_REPO=$W ./check $P > /tmp/chk_$P$TAG.out 2>&1; RC=$?
 echo "== ./check $P against the change: exit $RC"
-grep -E "^VIOLATION|^  \(|^C[0-9]+ (OK|FAILED)" /tmp/chk_$P.out | cut -c1-400 | head -12
+grep -E "^VIOLATION|^  \(|^C[0-9]+ (OK|FAILED)" /tmp/chk_$P$TAG.out | cut -c1-400 | head -12
 git -C /repo worktree remove --force $W
 # restore regenerated files / build products to /repo's state
-./check $P > /tmp/chk_${P}_restore.out 2>&1; echo "== ./check $P on /repo afterwards: exit $? $(grep -E '^C[0-9]+ (OK|FAILED)' /tmp/chk_${P}_restore.out | cut -c1-40)"
-/venv/bin/python - "$P" "$D" "$T" "$R1" "$R0" "$RC" <<'PY'
+./check $P > /tmp/chk_${P}${TAG}_restore.out 2>&1; echo "== ./check $P on /repo afterwards: exit $? $(grep -E '^C[0-9]+ (OK|FAILED)' /tmp/chk_${P}${TAG}_restore.out | cut -c1-40)"
+/venv/bin/python - "$P" "$D" "$T" "$R1" "$R0" "$RC" "$TAG" <<'PY'
 import json, sys, re, os
 P, D, T, R1, R0, RC = sys.argv[1:7]
+TAG = sys.argv[7] if len(sys.argv) > 7 else ""
 seed = {}
 try:
     seed = json.load(open(os.path.join(D, "meta.seed.json")))
 except Exception:
     pass
-out = open("/tmp/chk_%s.out" % P).read()
+out = open("/tmp/chk_%s%s.out" % (P, TAG)).read()
 keys = re.findall(r"^  \(([^ ]+) x\d+\)", out, flags=re.M)
 viol = re.findall(r"^VIOLATION .*$", out, flags=re.M)
 meta = {
